@@ -266,6 +266,13 @@ def to_sync_iter(iterable: AsyncIterable[T],
             future.result()
 
 
+def _being_cancelled() -> bool:
+    """Has cancellation of the current task been requested? (3.11+)"""
+    task = aio.current_task()
+    cancelling = getattr(task, 'cancelling', None)
+    return bool(cancelling and cancelling())
+
+
 _CacheMap = MutableMapping[Tuple[Any, ...], Any]
 _AsyncFunc = TypeVar('_AsyncFunc', bound=Callable[..., Awaitable[Any]])
 
@@ -474,7 +481,11 @@ def threadsafe_async_cache(
                         await waiter
                     except aio.CancelledError:
                         pass
-                raise
+                    raise
+                if not waiter.cancelled() or _being_cancelled():
+                    raise
+                # Only the wait itself was cancelled, e.g. because the
+                # caching loop shut down: loop around and check again
 
     return _wrapper  # type: ignore[return-value]
 
